@@ -162,6 +162,14 @@ fn get_global_info(root: &Node<'_>) -> GlobalInfo {
             }
         }
         given.extend(number_names);
+
+        // two different infosets of one player with the same name would silently be merged
+        let mut distinct_names = HashSet::new();
+        for name in given.values() {
+            if !distinct_names.insert(name) {
+                panic!("two different infosets of one player had the same name : https://github.com/erikbrinkman/cfr#duplicate-infosets");
+            }
+        }
     }
 
     // go through terminal payoffs to determine value of constant sum
